@@ -65,9 +65,15 @@ Ok(r, act, ret) ==
 \* a call that reports an injected sink failure
 \* (with a concurrent Writer the failing sink call may have happened during an earlier public call)
 Faulted(r) == r.err = "injected" /\ SinkFails
-FlushFaulted(r) == r.err = "injected" /\ FlushFails
-\* C15 is silent about what a caller gets who keeps using a Writer after a failure was reported to him
-AfterFailure == failed /\ UNCHANGED wvars
+\* Flush / Close as the first call that touches the sink: the failing sink call is the frame header (the first sink call
+\* of this call) - init fails and the Writer is in error from then on, like everywhere else
+HeaderFaulted(r) == r.err = "injected" /\ ws = "new" /\ r.dcalls = 1 /\ SinkFails
+FlushFaulted(r) == r.err = "injected" /\ ~(ws = "new" /\ r.dcalls = 1) /\ FlushFails
+\* after a failure that put the Writer in error, every call fails and nothing reaches the sink until Reset; after a
+\* failure reported by Flush alone (not sticky, see Writer!FlushFails) C15 is silent about what the caller gets
+AfterFailure(r) ==
+    /\ failed /\ UNCHANGED wvars
+    /\ (ws = "error" => r.err # "none" /\ (Sequential => r.dsink = 0))
 
 \* a refused call: error class names the reason, nothing reaches the sink
 Refused(r, act, classes) == r.err \in classes /\ r.ret = 0 /\ act /\ (Sequential => r.dcalls = 0)
@@ -75,19 +81,19 @@ Refused(r, act, classes) == r.err \in classes /\ r.ret = 0 /\ act /\ (Sequential
 TrCall ==
     /\ Ev("wcall") /\ Keep
     /\ LET r == Trace[l]
-       IN  CASE r.op # "reset" /\ failed -> AfterFailure
+       IN  CASE r.op # "reset" /\ failed -> AfterFailure(r)
              [] r.op = "write" ->
                   \/ Ok(r, Write(r.n), r.n)
                   \/ Faulted(r)
                   \/ Refused(r, WriteAfterClose, {"closed", "state", "optclosed", "injected", "other"})
              [] r.op = "flush" ->
                   \/ Ok(r, Flush, 0) /\ (Sequential => r.dec = accepted /\ r.decsame)
-                  \/ FlushFaulted(r)
+                  \/ FlushFaulted(r) \/ HeaderFaulted(r)
                   \/ (r.err = "none" /\ ws = "closed" /\ UNCHANGED wvars)       \* Flush after Close: no-op
                   \/ (r.err # "none" /\ ws = "error" /\ UNCHANGED wvars)
              [] r.op = "close" ->
                   \/ Ok(r, Close, 0)
-                  \/ Faulted(r) \/ FlushFaulted(r)
+                  \/ Faulted(r) \/ FlushFaulted(r) \/ HeaderFaulted(r)
                   \/ (r.err = "none" /\ CloseAgain /\ (Sequential => r.dcalls = 0))
                   \/ (r.err # "none" /\ ws = "error" /\ UNCHANGED wvars /\ (Sequential => r.dsink = 0))
              [] r.op = "readfrom" ->
